@@ -31,8 +31,53 @@ META = dict(
 )
 
 
+def complement_rule(ctx, R):
+    """derivre's complement `~X` is taken over *all* byte strings, including those that start with the 0xFF marker, i.e. the
+    byte images of special tokens.  A complement is therefore only safe as an operand of an intersection with a regex
+    that cannot match 0xFF (the JSON compiler does this: `and([valid_string, not(taken)])`).  A function that returns
+    the bare result of RegexBuilder::not lets a text terminal admit special tokens."""
+    P = ctx.prog
+    NOT = "llguidance::grammar_builder::RegexBuilder::not"
+    AND = "llguidance::grammar_builder::RegexBuilder::and"
+    callers = [c for c in P.callers_of(NOT) if c in P.bodies]
+    ctx.floor(R, "callers of RegexBuilder::not", len(callers), 2)
+    for c in sorted(callers):
+        b = P.bodies[c]
+        for bi in b.call_blocks(NOT):
+            d = b.blocks[bi]["term"]["dest"][0]
+            # does the complement reach the return value without passing through and()?
+            flows = {d}
+            changed = True
+            while changed:
+                changed = False
+                for l, ds in b.defs().items():
+                    if l in flows:
+                        continue
+                    for (dbi, si, kind, payload) in ds:
+                        ops = []
+                        if kind == "assign":
+                            ops = F._rvalue_operands(payload)
+                        elif kind == "call" and payload["f"].get("def") != AND:
+                            # Ok(..)/Some(..)-style wrappers and conversions keep the value; and() consumes it
+                            dn = payload["f"].get("def", "")
+                            if dn.rsplit("::", 1)[-1] in ("from_residual", "branch", "into", "from", "clone", "map"):
+                                ops = payload["args"]
+                        for o in ops:
+                            pl = F.op_place(o)
+                            if pl and pl[0] in flows:
+                                flows.add(l)
+                                changed = True
+            returned = 0 in flows
+            inst = "complement-only-under-intersection:%s" % c.replace("llguidance::", "")
+            ctx.check(not returned, R, inst, "the complement is consumed by RegexBuilder::and together with a marker-free regex",
+                      "%s returns the bare complement built by RegexBuilder::not: the terminal `~X` matches every byte string outside X, "
+                      "including \\xFF-prefixed special-token images, so a pure text position admits special tokens" % c, site=b.where(bi))
+
+
 def run(ctx):
     P = ctx.prog
+    # R6: complements of regexes and the marker byte
+    complement_rule(ctx, "C19-R6")
     # R5: rolling back over a special token must drop exactly the bytes it pushed (\xFF "[" id "]"): token_len (shared, C16-R7)
     from . import c16 as _c16
     _c16.token_len_rule(ctx, "C19-R5")
